@@ -174,7 +174,7 @@ static void helper_start(void) {
 
 /* ------------------------------------------------------------------ topologies */
 struct tcache { char key[200]; hwloc_topology_t t; int loadret; };
-static struct tcache cache[24]; static int ncache;
+static struct tcache cache[64]; static int ncache;
 static unsigned char kallowed[KBYTES]; static size_t kallowed_bits; static unsigned char kmems[NBYTES];
 static hwloc_topology_t topo; static int cur_loadret;
 static char kind[16], desc[128], envs[8]; static int flag, thr; static long cidx[4];
@@ -259,7 +259,7 @@ static void do_reset(char *p, int beh) {
   for (i = 0; i < ncache; i++) if (!strcmp(cache[i].key, key)) { topo = cache[i].t; cur_loadret = cache[i].loadret; }
   if (!topo) {
     topo = build_topology(&cur_loadret);
-    if (ncache < 24) { snprintf(cache[ncache].key, sizeof cache[ncache].key, "%s", key); cache[ncache].t = topo; cache[ncache].loadret = cur_loadret; ncache++; }
+    if (ncache < 64) { snprintf(cache[ncache].key, sizeof cache[ncache].key, "%s", key); cache[ncache].t = topo; cache[ncache].loadret = cur_loadret; ncache++; }
     restore_kernel_state();
   }
   if (thr) helper_start();
